@@ -327,32 +327,7 @@ def run(R):
     # ---------------------------------------------------------------- R6 a status recovered from an error chain keeps its details
     R.describe('C20.R6', 'Status::from_error / try_from_error: the Status found in a source chain is copied with its code, message, details and metadata (Status is not Clone; only `source` is left behind)')
     with R.guard('C20.R6'):
-        tonic = R.crate('tonic')
-        fs = tonic.body('status::find_status_in_source_chain')
-        R.saw(fs)
-        ffs = family(tonic, fs)   # the rungs of the chain walk may be functions of their own (named, or listed in a table)
-        ags = [(m_,) + x for m_ in ffs for x in mirlib.aggregates(m_, 'status::Status') if x[3].get('kind') == 'adt']
-        ctor = [(m_, bb, t) for m_, bb, t in fam_calls(ffs, pat='status::Status::') if t.get('name') in ('new', 'with_metadata', 'with_details', 'with_details_and_metadata')]
-        nfa = 0
-        # the downcast to Status itself (other downcasts in the chain walk — TimeoutExpired, h2/hyper errors — build their own statuses)
-        is_dc = lambda x: is_call(x, name='downcast_ref') and any(re.search(r'(^|::)Status$', g_) for g_ in (x[4].get('ga') or []))
-        for agm in ags:
-            fs_, ag = agm[0], agm[1:]
-            if term_contains(fs_.origin(ag[4][ag[3]['fields'].index('code')]), is_dc):
-                for fname in ('code', 'message', 'details', 'metadata'):
-                    v = fs_.origin(ag[4][ag[3]['fields'].index(fname)])
-                    nfa += 1
-                    R.check(fname in [x[2] for x in find_terms(v, lambda x: x and x[0] == 'field')], 'C20.R6', 'recovered:%s' % fname, site(fs_, ag[0], ag[1]), 'field %s of the recovered status comes from the found status: %s' % (fname, show(v)[:80]))
-        for fs_, bb, t in ctor:
-            if not any(term_contains(fs_.origin(a_), is_dc) for a_ in t['args']):
-                continue
-            got = set()
-            for a_ in t['args']:
-                got.update(x[2] for x in find_terms(fs_.origin(a_), lambda x: x and x[0] == 'field'))
-            for fname in ('code', 'message', 'details', 'metadata'):
-                nfa += 1
-                R.check(fname in got, 'C20.R6', 'recovered:%s' % fname, site(fs_, bb), 'Status::%s(..) is given the found status\'s %s: %r (arguments use %r)' % (t['name'], fname, fname in got, sorted(got)))
-        R.floor('C20.R6', 'fields of the recovered status', nfa, 4)
+        check_recovered_status(R, R.crate('tonic'), 'C20.R6', ('code', 'message', 'details', 'metadata'))
 
     # ---------------------------------------------------------------- R4 inner status = outer status
     R.describe('C20.R4', 'the embedded google.rpc.Status is built from the same code and message as the outer tonic::Status, always (also with no details attached)')
